@@ -86,7 +86,8 @@ typedef struct {
     hyp_iter_t *hyp[NSLOT];
     alignment_iter_t *ali[NSLOT];
     lattice_t *lat[NSLOT];   /* user references taken with lattice_retain */
-    alignment_t *aln[NSLOT]; /* user references taken with alignment_retain */
+    alignment_t *aln[NSLOT]; /* user references taken with alignment_retain, or created with alignment_init */
+    int built[NSLOT];        /* the slot holds an alignment the history builds itself */
     latnode_iter_t *ln[NSLOT]; lattice_t *lndag[NSLOT]; /* node iterators (pointers into a lattice) */
     latlink_iter_t *ll[NSLOT]; lattice_t *lldag[NSLOT]; /* link iterators */
 } inst_t;
@@ -260,8 +261,18 @@ static void inst_state(inst_t *x)
                x->dec->search && x->dec->search->dag != NULL);
     } else
         printf("D=0");
-    printf(" it=%d,%d,%d lr=%d ar=%d ln=%d,%d", count((void **)x->seg), count((void **)x->hyp), count((void **)x->ali),
+    printf(" it=%d,%d,%d lr=%d ar=%d ln=%d,%d ub=", count((void **)x->seg), count((void **)x->hyp), count((void **)x->ali),
            count((void **)x->lat), count((void **)x->aln), count((void **)x->ln), count((void **)x->ll));
+    {
+        int k, any = 0;
+        for (k = 0; k < NSLOT; k++)
+            if (x->aln[k] && x->built[k]) {
+                printf("%s%d:%d/%d/%d", any ? "," : "", k, alignment_n_words(x->aln[k]), alignment_n_phones(x->aln[k]),
+                       alignment_n_states(x->aln[k]));
+                any = 1;
+            }
+        if (!any) printf("-");
+    }
 }
 
 static void state(void)
@@ -714,7 +725,33 @@ int main(int argc, char **argv)
         } else if (!strcmp(w[0], "alfree") && n >= 2) {
             int k = atoi(w[1]);
             if (!SLOT_OK(k) || !ALN[k]) { RET("skip"); continue; }
-            alignment_free(ALN[k]); ALN[k] = NULL; RET("void");
+            alignment_free(ALN[k]); ALN[k] = NULL; C->built[k] = 0; RET("void");
+        } else if (!strcmp(w[0], "albuild") && n >= 2) {
+            /* albuild <slot>: alignment_init(d->d2p), an alignment the history fills itself */
+            int k = atoi(w[1]);
+            NEED_D;
+            if (!SLOT_OK(k) || ALN[k]) { RET("skip"); continue; }
+            ALN[k] = alignment_init(D->d2p); C->built[k] = 1;
+            RET(ALN[k] ? "ptr" : "null");
+        } else if (!strcmp(w[0], "aladd") && n >= 4) {
+            /* aladd <slot> <count> <word>: <count> x alignment_add_word; stops at the first refusal (return value 0) */
+            int k = atoi(w[1]), cnt = atoi(w[2]), i2, okc = 0, last = -1; int32 wid; dict_t *dict;
+            if (!SLOT_OK(k) || !ALN[k] || !C->built[k]) { RET("skip"); continue; }
+            dict = ALN[k]->d2p->dict;
+            wid = dict_wordid(dict, w[3]);
+            if (wid == BAD_S3WID) { RET("skip"); continue; }
+            for (i2 = 0; i2 < cnt; i2++) {
+                last = alignment_add_word(ALN[k], wid, 0, 0);
+                if (last == 0) break;
+                okc++;
+            }
+            RET("n=%d added=%d plen=%d", last, okc, dict_pronlen(dict, wid));
+        } else if (!strcmp(w[0], "alpop") && n >= 3) {
+            /* alpop <slot> cd|ci: alignment_populate / alignment_populate_ci */
+            int k = atoi(w[1]), r;
+            if (!SLOT_OK(k) || !ALN[k] || !C->built[k]) { RET("skip"); continue; }
+            r = !strcmp(w[2], "ci") ? alignment_populate_ci(ALN[k]) : alignment_populate(ALN[k]);
+            RET(r == 0 ? "ok ne=%d" : "err ne=%d", bin_mdef_n_emit_state(ALN[k]->d2p->mdef));
         } else if (!strcmp(w[0], "aliter") && n >= 4) {
             /* aliter <destination slot> <retained alignment slot | -1> words|phones|states */
             /* source -1 = the alignment owned by the decoder (decoder_alignment) */
@@ -873,7 +910,7 @@ static void do_line(char *line)
     else if (!strcmp(w[0], "lnodefree")) { ps_latnode_iter_free(LN[k]); LN[k] = NULL; printf("< void"); }
     else if (!strcmp(w[0], "llinkfree")) { ps_latlink_iter_free(LL[k]); LL[k] = NULL; printf("< void"); }
     else if (!strcmp(w[0], "latfree")) { lattice_free(LAT[k]); LAT[k] = NULL; printf("< void"); }
-    else if (!strcmp(w[0], "alfree")) { alignment_free(ALN[k]); ALN[k] = NULL; printf("< void"); }
+    else if (!strcmp(w[0], "alfree")) { alignment_free(ALN[k]); ALN[k] = NULL; C->built[k] = 0; printf("< void"); }
     else if (!strcmp(w[0], "mllrfree")) { mllr_free(ML[k]); ML[k] = NULL; printf("< void"); }
     else if (!strcmp(w[0], "subfree")) {
         if (!strcmp(w[1], "cfg")) { config_free(CFG[k]); CFG[k] = NULL; }
